@@ -69,9 +69,22 @@ def cases(draw):
             el.setdefault("kw", {})["default"] = draw(jv.json_values(max_leaves=3))
     if root_kind == "Object" and draw(st.integers(0, 4)) == 0:
         root["kw"]["default"] = draw(st.one_of(st.just({}), jv.json_values(max_leaves=3)))
+    if root_kind == "Object" and draw(st.integers(0, 3)) == 0 and gen.class_names:
+        # the model is a SUBCLASS: the parent (built first, and used first) declares other properties
+        parent = {"id": gen.new_id(), "kind": "Object", "kw": {}, "name": gen.class_names.pop(0), "props": []}
+        taken = {p["name"] for p in root["props"]} | {p.get("source") for p in root["props"]}
+        for pname in ["pa", "pb"][: draw(st.integers(1, 2))]:
+            el = {"id": gen.new_id(), "kind": draw(st.sampled_from(["String", "Integer", "Element"])), "kw": {}}
+            if draw(st.booleans()):
+                el["kw"]["default"] = draw(st.sampled_from(["d", 0, None, 5]))
+            parent["props"].append({"name": pname, "source": draw(st.sampled_from([None, None, pname + "-x"])),
+                                    "required": False, "element": el})
+        root["base"] = parent
+        # build order is base first: the base must not reference the child's nodes (it does not)
+        root = {k: root[k] for k in ("id", "kind", "name", "kw", "base", "sub", "props") if k in root}
     idx = R.index(root)
     supplied = {}
-    for p in root["props"]:
+    for p in (R.flat_class(root, idx)[2] if root_kind == "Object" else root["props"]):
         sch = R.to_schema(p["element"], idx)
         supplied[p["name"]] = draw(instance_of(sch if isinstance(sch, dict) else {}))
     mode = draw(st.sampled_from(["dsl", "dsl", "parsed"])) if root_kind == "Object" else draw(st.sampled_from(["dsl", "parsed"]))
@@ -143,6 +156,15 @@ def predicate(case, stats):
     # property python names as the *built* model has them (the parser derives them from the JSON name)
     by_source = {(p.source if p.source is not None else n): n for n, p in props.items()}
     recipe_props = case["recipe"]["props"]
+    if case["recipe"].get("base") and case["recipe"]["kind"] == "Object":
+        recipe_props = R.flat_class(case["recipe"], R.index(case["recipe"]))[2]
+        if case["mode"] == "dsl":
+            # history: the parent is used before the subclass (state cached on the parent must not leak)
+            for parent_cls in type.mro(model)[1:]:
+                if isinstance(parent_cls, ObjectMeta) and parent_cls.__name__ != "Object":
+                    observe.verdict(parent_cls, {})
+                    observe.verdict(parent_cls, {"pa": "x"})
+        stats.classes["subclass-model"] += 1
     has_pattern = bool(case["recipe"].get("sub", {}).get("patternProperties"))
     suppliable = []
     for rp in recipe_props:
